@@ -71,11 +71,13 @@ PLAN = {
     "C04": {"functions": [], "harness": True,
             "level_text": "arithmetic core proved for every sequence of (chunk, piece, path, size) tuples a piece checker yields: Checker.iter_hashes "
                           "reports matched/consumed*100, which is < 100 as soon as one tuple with size > 0 mismatches; Padder.__next__ / "
-                          "HashChecker.advance (absent data = zero pieces of the right sizes).  That the checkers yield exactly one tuple per "
+                          "HashChecker.advance (absent data = zero pieces of the right sizes); HashChecker.process_current (one tuple for the next "
+                          "piece of the current file: recorded hash slice, path, size min(remaining, piece length)) and next_file (next listed "
+                          "file, its length and recorded hashes).  That the checkers yield exactly one tuple per "
                           "piece of the payload (coverage clause) is decided by the bounded harness (12.5k damage cases quick, 147k thorough) "
                           "against an independent reference recheck",
             "level_note": "coverage clause of FeedChecker / HashChecker bounded, not proved; SHA collision-freeness assumed; float percentage read over exact rationals",
-            "modulo_bounded": ["FeedChecker.iter_pieces / extract / _gen_padding", "HashChecker.__next__ / next_file / process_current", "Checker.check_paths / find_root"],
+            "modulo_bounded": ["FeedChecker.iter_pieces / extract / _gen_padding", "HashChecker.__next__ (composition of the proved next_file / process_current over calls)", "Checker.check_paths / find_root"],
             "trusted": ["different bytes give different hashes (cryptographic assumption)", "float: 0 <= m < c < 2^52 => fl(fl(m/c)*100) < 100 (hand argument, DESIGN 3.3-2)"]},
     "C05": {"functions": [], "harness": True,
             "level_text": "arithmetic core proved (all pieces matching and consumed > 0 gives exactly 100); path discovery (find_root, check_paths, "
@@ -89,7 +91,7 @@ PLAN = {
                           "sizes proved; that tuple i is exactly piece i of the payload (sizes, independence of verdicts) is decided by the "
                           "bounded harness against the reference piece-by-piece computation",
             "level_note": "as C04; one known finding (padding entries of BEP 47 v1 metafiles weighted as payload)",
-            "modulo_bounded": ["FeedChecker.*", "HashChecker.__next__ / next_file / process_current"],
+            "modulo_bounded": ["FeedChecker.*", "HashChecker.__next__ (composition over calls)"],
             "trusted": ["float percentage read over exact rationals"]},
     "C09": {"functions": [], "harness": True,
             "level_text": "Memo.__call__ (the only cache in the package) is proved to return the wrapped function evaluated now, with an arbitrary "
@@ -128,19 +130,28 @@ PLAN = {
             "modulo_bounded": ["utils._filelist_total"],
             "trusted": ["as C01"]},
     "C02": {"functions": [], "harness": True,
-            "level_text": "proved from source: next_power_2 (smallest power of two >= n) and merkle_root (equals the BEP 52 layer-wise merkle root "
-                          "of a power-of-two list of digests, via the pairing idiom); the block / piece / padding logic of the three v2 hashers and "
-                          "the file-tree traversal are decided by the bounded harness against an independent BEP 52 reference (4 creators x 232 "
-                          "trees quick, 23.8k thorough)",
-            "level_note": "HasherV2 / HasherHybrid / FileHasher / _traverse are bounded, not proved",
-            "modulo_bounded": ["HasherV2.process_file/_calculate_root", "HasherHybrid.*", "FileHasher.__next__/_pad_remaining/_calculate_root", "_traverse x3"],
-            "trusted": ["SHA-256 uninterpreted", "L2 merkle decomposition (Lean, DESIGN appendix A)"]},
+            "level_text": "proved from source, for every file size and piece length: next_power_2, merkle_root (= BEP 52 layer-wise root, pairing "
+                          "idiom); the three v2 hashers (FileHasher.__next__/_pad_remaining/_calculate_root per call; HasherV2.process_file and "
+                          "HasherHybrid.process_file over the whole file with nested loop invariants): the piece layer is the concatenation of "
+                          "piece_roots(content) -- per piece the merkle root of the SHA-256 leaves of exactly that piece's bytes padded with zero "
+                          "hashes per BEP 52 -- and the pieces root is the merkle root over the piece layer padded with zero-piece roots to the next "
+                          "power of two; leaf case of the three _traverse functions: exact length, no root for an empty file, a piece-layers entry "
+                          "exactly for files larger than one piece.  The directory branch of _traverse (sorted listing, recursion, nesting) and "
+                          "assemble of the v2 classes are decided by the bounded harness against an independent BEP 52 reference",
+            "level_note": "directory walk bounded; L2 (layer-wise root of padded piece roots == root over all padded leaves) is a hand/Lean lemma, "
+                          "not compiled by the check; piece_roots/leaves are spec functions defined by ground unfolding instances",
+            "modulo_bounded": ["_traverse x3: directory branch", "TorrentFileV2.assemble / TorrentFileHybrid.assemble / TorrentAssembler.assemble"],
+            "trusted": ["SHA-256 uninterpreted", "L2 merkle decomposition (Lean, DESIGN appendix A)",
+                        "L4: two powers of two in [n, 2n) are equal (uniqueness of the BEP 52 padding count)",
+                        "readinto returns fewer bytes than asked only at end of file", "no concurrent modification while hashing"]},
     "C10": {"functions": [], "harness": True,
-            "level_text": "shared primitives proved (next_power_2, merkle_root); agreement of the creator pairs and of the three v2-capable hashers "
-                          "is decided by the bounded harness (pairwise comparison of info dictionaries, piece layers, roots, v1 pieces, padding)",
-            "level_note": "hashers bounded; agreement is not derived from contracts yet",
-            "modulo_bounded": ["HasherV2", "HasherHybrid", "FileHasher", "TorrentAssembler / TorrentFileV2 / TorrentFileHybrid"],
-            "trusted": []},
+            "level_text": "the three v2-capable hashers are each proved against the same spec functions (piece_roots, hybrid_pieces, mroot over the "
+                          "padded piece layer), so for one file they agree on root, piece layer, v1 pieces and padding entry; same for the leaf "
+                          "case of the three _traverse functions.  Agreement of whole info dictionaries across creator pairs (directory walk, "
+                          "assemble) is decided by the bounded harness (pairwise comparison)",
+            "level_note": "agreement follows from equal postconditions per file; whole-torrent agreement bounded",
+            "modulo_bounded": ["directory branch of _traverse x3", "assemble of the v2 classes", "TorrentFile (v1) vs hybrid v1 view"],
+            "trusted": ["as C02"]},
     "C14": {"functions": [], "harness": True,
             "level_text": "frame: every call site reachable from commands.rebuild is classified from the real call graph; the file system is reached "
                           "only through utils.copypath, which is proved for all file-system states: it never touches the source, never touches a "
@@ -152,31 +163,35 @@ PLAN = {
             "modulo_bounded": ["PieceNode._find_matches", "Metadata._match_v1 / _match_v2", "Assembler.*"],
             "trusted": ["os.mkdir creates only absent directories", "shutil.copy writes its destination only"]},
     "C03": {"functions": [], "harness": True,
-            "level_text": "FileHasher.__next__ (the hasher behind the command line) proved from source: in hybrid mode each returned v1 piece is "
-                          "SHA-1 of exactly the bytes of that piece followed by zero bytes up to the piece length only when padding is declared "
-                          "(pad), the padding entry has attr 'p' and exactly that length, and a single-file payload (pad off) is hashed as the file "
-                          "alone; that the v1 file list interleaves files and padding entries in tree order (_traverse / assemble) and the second "
-                          "hybrid hasher (HasherHybrid) are decided by the bounded harness against the reference",
-            "level_note": "HasherHybrid.process_file, TorrentAssembler._traverse/assemble, TorrentFileHybrid._traverse/assemble bounded",
-            "modulo_bounded": ["HasherHybrid.process_file", "TorrentAssembler._traverse / assemble", "TorrentFileHybrid._traverse / assemble"],
+            "level_text": "both hybrid hashers proved from source (FileHasher.__next__ per call, HasherHybrid.process_file over the whole file): the "
+                          "v1 pieces of a file are SHA-1 of each successive piece of exactly its bytes, the short last piece followed by zero "
+                          "bytes up to the piece length only when padding is declared (pad); a padding entry (attr 'p') exists exactly when "
+                          "padding is declared and the last piece is short, with length piece_length - size mod piece_length; leaf case of "
+                          "TorrentFileHybrid._traverse / TorrentAssembler._traverse: the v1 list gets the file (exact length, relative path) then "
+                          "its padding entry, the v1 pieces are appended.  The order across files in the directory walk and assemble are decided "
+                          "by the bounded harness against the reference",
+            "level_note": "directory branch of _traverse and assemble bounded",
+            "modulo_bounded": ["directory branch of _traverse", "TorrentAssembler.assemble / TorrentFileHybrid.assemble"],
             "trusted": ["SHA-1 / SHA-256 uninterpreted", "readinto short only at EOF"]},
     "C13": {"functions": [], "harness": True,
             "level_text": "utils.copypath proved (what it writes at dest is a byte-identical copy of the source; parents are created; nothing else "
-                          "changes); the matching logic (Metadata.extract / _map_pieces / _find_matches / _match_v1 / _match_v2, Assembler) is "
+                          "changes); Metadata._map_pieces proved (every file is assigned the piece range of its byte range in the stream); the "
+                          "rest of the matching logic (Metadata.extract / _find_matches / _match_v1 / _match_v2, Assembler) is "
                           "decided by the bounded harness: scattered intact copies with decoys, all three versions, batches, verified with the "
                           "reference recheck (770 cases quick, 31.6k thorough)",
             "level_note": "only the copy primitive is proved; completeness of rebuild is bounded.  Known findings: trailing empty files and BEP 47 "
                           "padded v1 metafiles",
-            "modulo_bounded": ["Metadata._map_pieces", "PieceNode._find_matches", "Metadata._match_v1/_match_v2", "Assembler.*", "_index_contents"],
+            "modulo_bounded": ["PieceNode._find_matches", "Metadata._match_v1/_match_v2", "Assembler.*", "_index_contents"],
             "trusted": ["shutil.copy / os.mkdir effect table"]},
     "C19": {"functions": [], "harness": True,
             "level_text": "frame: rebuild reaches the file system only through utils.copypath (call-graph frame checker), whose effects are proved to "
                           "be confined to dest (a copy) and to newly created directories; that every dest handed to copypath lies below the "
-                          "destination -- i.e. that name and path elements are sanitised (_checked) before they are joined -- is decided by the "
-                          "bounded harness with hostile metafiles (783 cases quick) in a sandbox",
+                          "destination: rebuild._checked is proved to return only components without separators, '.', '..', empty elements, "
+                          "drives or roots (or to raise); that every recorded name / path element passes through it before being joined is "
+                          "decided by the bounded harness with hostile metafiles (783 cases quick) in a sandbox",
             "level_note": "containment of os.path.join(dest, full) given sanitised components is not derived symbolically (component path model of "
                           "DESIGN 5.5-ii not built); bounded",
-            "modulo_bounded": ["rebuild._checked", "Metadata.extract / _parse_tree", "call sites of copypath"],
+            "modulo_bounded": ["Metadata.extract / _parse_tree (that they call _checked)", "call sites of copypath"],
             "trusted": ["os.path.join / Path.parts semantics"]},
 }
 
